@@ -1,0 +1,102 @@
+// SPDX-License-Identifier: GPL-3.0-or-later
+/*
+ * Verification hooks. Everything in this file is inactive unless the
+ * preprocessor symbol INOVESA_VERIF is defined at compile time:
+ * without it, VERIF_IP(label) expands to nothing and no symbol is emitted.
+ *
+ * With INOVESA_VERIF defined:
+ *  - VERIF_IP(label) marks an "interrupt point". A process-wide counter is
+ *    incremented at every point; when it equals one of the (comma separated)
+ *    values of the environment variable INOVESA_VERIF_SIGINT_AT, SIGINT is
+ *    raised at that point, i.e. the installed handler runs exactly there.
+ *    If INOVESA_VERIF_IP_LOG names a file, "<counter> <label>" is appended
+ *    to it for every point passed.
+ *  - vfps::verif::prng_seed(seed) reports the value of the environment
+ *    variable INOVESA_VERIF_PRNG_SEED (if set), so that the random number
+ *    generators used for noise can be seeded reproducibly.
+ */
+
+#pragma once
+
+#ifdef INOVESA_VERIF
+
+#include <csignal>
+#include <cstdio>
+#include <cstdlib>
+#include <cstring>
+
+namespace vfps {
+namespace verif {
+
+struct IPState {
+    long counter;
+    long at[8];
+    int nat;
+    std::FILE* log;
+    bool init;
+};
+
+inline IPState& ipstate()
+{
+    static IPState s = {0,{-1,-1,-1,-1,-1,-1,-1,-1},0,nullptr,false};
+    return s;
+}
+
+inline void ip(const char* label)
+{
+    IPState& s = ipstate();
+    if (!s.init) {
+        s.init = true;
+        const char* at = std::getenv("INOVESA_VERIF_SIGINT_AT");
+        if (at != nullptr) {
+            const char* p = at;
+            while (*p != '\0' && s.nat < 8) {
+                char* end = nullptr;
+                long v = std::strtol(p,&end,10);
+                if (end == p) {
+                    break;
+                }
+                s.at[s.nat++] = v;
+                p = end;
+                while (*p == ',' || *p == ' ') {
+                    p++;
+                }
+            }
+        }
+        const char* lf = std::getenv("INOVESA_VERIF_IP_LOG");
+        if (lf != nullptr && lf[0] != '\0') {
+            s.log = std::fopen(lf,"a");
+        }
+    }
+    if (s.log != nullptr) {
+        std::fprintf(s.log,"%ld %s\n",s.counter,label);
+        std::fflush(s.log);
+    }
+    for (int k=0; k<s.nat; k++) {
+        if (s.at[k] == s.counter) {
+            std::raise(SIGINT);
+        }
+    }
+    s.counter++;
+}
+
+inline bool prng_seed(unsigned long& seed)
+{
+    const char* v = std::getenv("INOVESA_VERIF_PRNG_SEED");
+    if (v == nullptr || v[0] == '\0') {
+        return false;
+    }
+    seed = std::strtoul(v,nullptr,10);
+    return true;
+}
+
+} // namespace verif
+} // namespace vfps
+
+#define VERIF_IP(label) ::vfps::verif::ip(label)
+
+#else // INOVESA_VERIF
+
+#define VERIF_IP(label)
+
+#endif // INOVESA_VERIF
